@@ -50,6 +50,9 @@ DOCS = [
 ]
 
 
+OTHERS = [{"a": {"b": 2}, "b": 5, "c": [0, -1], "z": 0, 0: 5, "1": 0, 1: 1}, [5, 5]]
+
+
 def multisets(tier):
     n = 2 if tier == "quick" else 4
     out = []
@@ -120,7 +123,10 @@ def check_case(res, idxs, doc, key, perms=None):
             }
             report = vd.get_failures_string()
             frac = vd.frac_rules_tested if terms else None
-            # H flavour: the same result object read again, in another order, says the same
+            # H flavour: the same schema object validates two other documents, then the first result object is read
+            # again, in another order: it still says what it said about its own document
+            for other in OTHERS:
+                schema.validate(fresh(other))
             again = (vd.get_failures_string(), vd.num_rules_tested, vd.num_failures, vd.is_valid,
                      [(rt.is_valid, rt.tested, rt.num_failures, [tuple(f.path) for f in rt.failures]) for rt in vd.rule_tests])
             if again != (report, obs["nt"], obs["nf"], obs["valid"], obs["rts"]):
